@@ -43,12 +43,13 @@ CLAIMED["C06"] = dict(
     note="Same trusted base as C05. Liveness is stated as 'no bad quiescent state' (L1); bounded progress (L2) does not hold for the "
          "unchanged code when >=2 threads re-wait (that is the C20 finding), so fair termination is L1 plus fairness, not a ranking.")
 CLAIMED["C20"] = dict(
-    text="PARTIAL: proved — a thread parked in Signal.wait() (flag false) or Lock.wait() (not signalled, not timed out) is disabled; "
+    text="PARTIAL: proved — a thread parked in Signal.wait() (flag false), Lock.wait() (not signalled, not timed out) or Queue.pop()/"
+         "add() (not signalled, not closed, no till / no stall timer of this wait fired; silent and non-silent queues) is disabled; "
          "waiter signals are fired only by a release; a single Lock waiter leaves the system quiescent. Disproved for the unchanged "
          "code — two or more re-waiting threads on one Lock wake each other forever (Lean witness + replay on the real code): open "
          "known finding C20/two-or-more-waiters-on-one-lock, printed as KNOWN-FINDING. Any other busy-wait (single waiter spinning, "
-         "Signal.wait spinning) is reported as a VIOLATION.",
-    design="§5 C20, §7", technique="Lean 4 theorems + decide-checked negation witness; livelock monitor on real Lock runs under the scheduler",
+         "Signal.wait polling with a timed acquire, a producer re-waiting on an expired timer) is reported as a VIOLATION.",
+    design="§5 C20, §7", technique="Lean 4 theorems + decide-checked negation witness; livelock and timed-acquire monitors on real Lock and Queue runs under the scheduler",
     note="Same trusted base as C01/C05. The full property is false on the unchanged tree; no small safe repair exists within the "
          "implicit-notify API (DESIGN §7), so it is a recorded finding, not a fix.")
 
@@ -63,10 +64,11 @@ CLAIMED["C07"] = dict(
          "scheduler with the real Lock/Signal/OrSignal/Till underneath; the Lock's baton is an arbitrary environment move in the model "
          "(no-loss liveness is C06). deque ops, `with`, logger.error raising are modelled, not verified. silent, non-unique queues.")
 CLAIMED["C08"] = dict(
-    text="Lean 4 theorems on the same model for every max and any number of producers/consumers: a non-forced add() appends only "
+    text="Lean 4 theorems on the same model for every max, any number of producers/consumers, silent and non-silent queues: a non-forced add() appends only "
          "with the queue closed or below max (so an open queue never exceeds max through add); a producer finding the open queue "
          "full tests its give-up signal, raises with contents unchanged if it fired, parks otherwise; a woken producer re-tests "
-         "everything; a parked producer is enabled exactly by a signal or its own till with the mutex free. The check also found "
+         "everything (after the 'queue is full' alert test when not silent); a parked producer is enabled exactly by a signal, its own "
+         "till (silent) or the stall timer of THIS wait (not silent, every wait gets a fresh one), with the mutex free. The check also found "
          "and the tree now fixes the `till or Till()` defect (caller's till ignored).",
     design="§5 C08", technique="Lean 4 invariant + trace acceptance + capacity/back-pressure monitors on real runs",
     note="Same trusted base as C07. 'Not stranded when consumers keep popping' is the C06 L1 theorem on the Lock model plus the "
